@@ -185,6 +185,9 @@ type c15World struct {
 	serial uint64
 
 	stats map[string]int64
+
+	stopFlood atomic.Bool
+	flooded   atomic.Int64
 }
 
 func (w *c15World) observe(rt *c15Router, via string, b []byte) {
@@ -672,6 +675,54 @@ func (w *c15World) run(rng *rand.Rand, cycles, perPhase int) {
 			w.probe(pt, phase, append([]string(nil), hist...))
 		}
 	}
+	// While BFD sessions change state, the routers' management API (interface state
+	// listing, as the control service and the mgmt endpoint poll it) is queried
+	// concurrently from other goroutines, and a modest stream of unjudged probes keeps
+	// flowing over the links concerned: link state is consulted concurrently with the
+	// transitions. A stale view would show in the judged stable phase that follows.
+	var flooding atomic.Bool
+	var floodWG sync.WaitGroup
+	for _, rt := range w.routers {
+		for k := 0; k < 2; k++ {
+			floodWG.Add(1)
+			go func(rt *c15Router) {
+				defer floodWG.Done()
+				for !w.stopFlood.Load() {
+					if !flooding.Load() {
+						time.Sleep(200 * time.Microsecond)
+						continue
+					}
+					_, _ = rt.star.C.ListExternalInterfaces()
+					_, _ = rt.star.C.ListSiblingInterfaces()
+					w.flooded.Add(1)
+				}
+			}(rt)
+		}
+	}
+	floodWG.Add(1)
+	go func() {
+		defer floodWG.Done()
+		i := 0
+		for !w.stopFlood.Load() {
+			time.Sleep(300 * time.Microsecond)
+			if !flooding.Load() {
+				continue
+			}
+			pt := w.probes[i%len(w.probes)]
+			i++
+			if pt.rt.star.Link(pt.egIf).BFDSession() == nil {
+				continue
+			}
+			b := append([]byte(nil), pt.b...)
+			copy(b[len(b)-12:], []byte("FLOODfloodFL")) // no probe magic: not recorded
+			pt.in.push(dgram{b: b, addr: pt.src})
+		}
+	}()
+	defer func() {
+		w.stopFlood.Store(true)
+		floodWG.Wait()
+		r.EventN("concurrent_state_queries_during_transitions", w.flooded.Load())
+	}()
 	upWatch, downWatch := 40*time.Second, 30*time.Second
 	if !w.waitStates(upWatch) {
 		r.Inconclusive("bfd-initial-up-watchdog")
@@ -703,8 +754,11 @@ func (w *c15World) run(rng *rand.Rand, cycles, perPhase int) {
 			wr.cut.Store(true)
 			note("cut %s", wr.name)
 		}
+		flooding.Store(true)
 		probes(perPhase/4, "transition:after-cut:"+tag, isCut)
-		if !w.waitStates(downWatch) {
+		ok := w.waitStates(downWatch)
+		flooding.Store(false)
+		if !ok {
 			r.Inconclusive("bfd-down-watchdog")
 			break
 		}
@@ -718,8 +772,11 @@ func (w *c15World) run(rng *rand.Rand, cycles, perPhase int) {
 			wr.cut.Store(false)
 			note("restore %s", wr.name)
 		}
+		flooding.Store(true)
 		probes(perPhase/4, "transition:after-restore:"+tag, isCut)
-		if !w.waitStates(upWatch) {
+		ok = w.waitStates(upWatch)
+		flooding.Store(false)
+		if !ok {
 			r.Inconclusive("bfd-recovery-watchdog")
 			break
 		}
